@@ -2,7 +2,7 @@
    metadata declares.  All statements quantify over arbitrary stores /
    document lists / role, key and endpoint lists (proofs by induction in
    Proofs/MdStore_lemmas.v). *)
-From PV Require Import Lib.Base Model.MdStore Proofs.MdStore_lemmas.
+From PV Require Import Lib.Base Model.Xmlsec Model.MdStore Model.MdSig Proofs.MdStore_lemmas Proofs.MdSig_lemmas.
 Open Scope N_scope.
 
 (* ---- (1) exactness of service() ------------------------------------------
@@ -141,6 +141,22 @@ Proof.
 Qed.
 Print Assumptions C16_exact_entity_categories.
 
+Theorem C16_exact_supported_categories :
+  forall st eid l, store_supported_categories st eid = Ok l ->
+    l = match store_get st eid with
+        | None => []
+        | Some e => vals_of EC_SUPPORT (List.concat (e_eattrs e))
+        end.
+Proof.
+  intros st eid l. unfold store_supported_categories.
+  destruct (store_entity_attributes st eid) as [res|x] eqn:E; [|discriminate].
+  intros H; injection H as <-. rewrite (entity_attributes_exact _ _ _ E EC_SUPPORT).
+  destruct (store_get st eid) as [e|]; [|reflexivity].
+  destruct (hits EC_SUPPORT (List.concat (e_eattrs e))) eqn:Eh; [reflexivity|].
+  unfold vals_of. unfold hits in Eh. now rewrite (filter_none _ _ Eh).
+Qed.
+Print Assumptions C16_exact_supported_categories.
+
 Theorem C16_exact_attribute_requirement :
   forall st eid index req opt, store_attribute_requirement st eid index = Some (req, opt) ->
     exists e, store_get st eid = Some e /\
@@ -177,6 +193,28 @@ Proof.
 Qed.
 Print Assumptions C16_unknown_entity.
 
+(* the typed wrappers ask service() for their own role type / service and, when
+   no binding is given, their default binding - so (1) and (2) carry over to
+   single_sign_on_service, assertion_consumer_service, ... *)
+Theorem C16_wrappers_are_service :
+  forall st eid b,
+    store_wrapper st W_SSO eid b None = store_service st eid T_IDP S_SSO (match b with Some x => x | None => B_REDIRECT end) /\
+    store_wrapper st W_ACS eid b None = store_service st eid T_SP S_ACS (match b with Some x => x | None => B_POST end) /\
+    store_wrapper st W_ATTR eid b None = store_service st eid T_AA S_ATTR (match b with Some x => x | None => B_REDIRECT end) /\
+    store_wrapper st W_AUTHZ eid b None = store_service st eid T_PDP S_AUTHZ (match b with Some x => x | None => B_SOAP end) /\
+    (forall t, store_wrapper st W_SLO eid b (Some t) =
+               store_service st eid (descr_key t) S_SLO (match b with Some x => x | None => B_REDIRECT end)) /\
+    (forall t, store_wrapper st W_ARS eid b (Some t) =
+               store_service st eid (descr_key t) S_ARS (match b with Some x => x | None => B_REDIRECT end)) /\
+    (forall t, store_wrapper st W_AIDR eid b (Some t) =
+               store_service st eid (descr_key t) S_AIDR (match b with Some x => x | None => B_SOAP end)) /\
+    (forall w t t', In w [W_SSO; W_ACS; W_ATTR; W_AUTHZ] -> store_wrapper st w eid b t = store_wrapper st w eid b t').
+Proof.
+  intros st eid b. repeat split; try reflexivity.
+  intros w t t' Hw. cbn [In] in Hw. destruct Hw as [<-|[<-|[<-|[<-|[]]]]]; reflexivity.
+Qed.
+Print Assumptions C16_wrappers_are_service.
+
 (* ---- (3) expired entities / documents are never served --------------------- *)
 Theorem C16_expired_never_served :
   forall now srcs k m eid e,
@@ -206,25 +244,56 @@ Proof. exact valid_spec. Qed.
 Print Assumptions C16_valid_means_not_passed.
 
 (* ---- (4) signed metadata with a verification certificate ------------------
-   relative to the verification CALL: a registered source that has a
-   certificate and a signed root is remote and its verification call returned
-   (did not raise). *)
-Theorem C16_signed_only_if_call_returned :
+   (4a) relative to the verification CALL (security.verify_signature, i.e. the
+   crypto backend's answer): a source with a certificate and a signed root is
+   registered only if it is remote and the call answered True.  A failure
+   reported by raising (xmlsec1 backend) or by returning False
+   (CryptoBackendXMLSecurity) is fatal alike - the model follows the repaired
+   parse_and_check_signature (proposed_fix/C16-1). *)
+Theorem C16_signed_only_if_verified :
+  forall now s m, load_source now s = Ok m -> s_kind s <> Inline -> s_cert s = true -> d_signed (s_doc s) = true ->
+    s_kind s = Remote /\ s_verdict s = Ok true.
+Proof. intros now s m Hl Hk Hc Hd. apply load_source_ok in Hl as [_ [_ Ha]]. exact (Ha Hk Hc Hd). Qed.
+Print Assumptions C16_signed_only_if_verified.
+
+(* the same for every source of a long-lived store *)
+Theorem C16_registered_signed_source_verified :
   forall now srcs k m, In (k, m) (load_all now [] srcs) ->
     exists s, In s srcs /\ s_key s = k /\ load_source now s = Ok m /\
       (s_kind s = Remote -> s_http_ok s = true) /\
       (s_kind s <> Inline -> s_cert s = true -> d_signed (s_doc s) = true ->
-         s_kind s = Remote /\ exists b, s_verdict s = Ok b).
+         s_kind s = Remote /\ s_verdict s = Ok true).
 Proof.
   intros now srcs k m H. destruct (registered_source _ _ _ _ H) as (s & H1 & H2 & H3 & [H4 H5] & _).
   exists s. repeat split; auto; now apply H5.
 Qed.
-Print Assumptions C16_signed_only_if_call_returned.
+Print Assumptions C16_registered_signed_source_verified.
 
-(* FULL STATEMENT (does not hold of the model, hence of the code):
-     forall now s m, load_source now s = Ok m -> s_kind s <> Inline -> s_cert s = true ->
-       d_signed (s_doc s) = true -> s_verdict s = Ok true.
-   MetadataStore.load ignores the value parse_and_check_signature returns. *)
+(* a verification that does not succeed contributes no entity: the load raises,
+   the store is left as it was *)
+Theorem C16_failed_verification_contributes_nothing :
+  forall now st s, s_kind s <> Inline -> s_cert s = true -> d_signed (s_doc s) = true -> s_verdict s <> Ok true ->
+    (exists x, load_source now s = Err x) /\ fst (store_load now st s) = st.
+Proof.
+  intros now st s Hk Hc Hd Hv. destruct (failed_verification_fatal now s Hk Hc Hd Hv) as [x Hx].
+  split; [now exists x|]. unfold store_load. now rewrite Hx.
+Qed.
+Print Assumptions C16_failed_verification_contributes_nothing.
+
+(* exactly the admissible sources whose document parses are registered *)
+Theorem C16_registered_iff :
+  forall now s m, load_source now s = Ok m <->
+    admissible s /\ parse now (eff_check s) (d_body (s_doc s)) = Ok m.
+Proof.
+  intros now s m. split.
+  - intros H. apply load_source_ok in H as [Hp Ha]. now split.
+  - intros [Ha Hp]. now apply load_source_complete.
+Qed.
+Print Assumptions C16_registered_iff.
+
+(* BEFORE the repair (load_source_before_fix: MetadataStore.load ignored the
+   value parse_and_check_signature returned) the statement failed: a backend
+   answering False got the entities served *)
 Definition witness_entity : entity :=
   {| e_id := s2l "https://idp.example.org"; e_valid_until := None;
      e_roles := [{| r_type := T_IDP; r_protocols := Some SAML2P; r_keys := [];
@@ -235,27 +304,117 @@ Definition witness_source : source :=
   {| s_key := s2l "http://md.example.org/"; s_kind := Remote; s_cert := true; s_check := true; s_http_ok := true;
      s_verdict := Ok false; s_doc := {| d_signed := true; d_body := Many None IvOk [witness_entity] |} |}.
 
-Theorem C16_signed_only_if_verified_refuted :
-  exists now s m, load_source now s = Ok m /\ s_kind s <> Inline /\ s_cert s = true /\
+Theorem C16_signed_only_if_verified_before_fix_refuted :
+  exists now s m, load_source_before_fix now s = Ok m /\ s_kind s <> Inline /\ s_cert s = true /\
     d_signed (s_doc s) = true /\ s_verdict s = Ok false /\ m <> [] /\
-    exists l, store_service (load_all now [] [s]) (s2l "https://idp.example.org") T_IDP S_SSO B_REDIRECT = Ok l.
+    (exists l, store_service [(s_key s, m)] (s2l "https://idp.example.org") T_IDP S_SSO B_REDIRECT = Ok l) /\
+    (* the repaired loader refuses the same source *)
+    exists x, load_source now s = Err x.
 Proof.
   exists 0%Z, witness_source. eexists. split; [vm_compute; reflexivity|].
-  repeat split; try discriminate. eexists. vm_compute. reflexivity.
+  repeat split; try discriminate; eexists; vm_compute; reflexivity.
 Qed.
-Print Assumptions C16_signed_only_if_verified_refuted.
+Print Assumptions C16_signed_only_if_verified_before_fix_refuted.
 
-(* … and holds for every backend that reports failure by raising (the xmlsec1
-   backend: C20_verify_single_never_false) *)
-Theorem C16_signed_only_if_verified_partial :
-  forall now s m, s_verdict s <> Ok false ->
-    load_source now s = Ok m -> s_kind s <> Inline -> s_cert s = true -> d_signed (s_doc s) = true ->
-    s_verdict s = Ok true.
+(* (4b) WHICH signature the call is about (DESIGN.md 5.1 F15, Model/MdSig.v).
+   parse_and_check_signature passes no node id: the tool's answer is about the
+   FIRST ds:Signature in document order, whatever signed() looked at. *)
+Theorem C16_no_node_id_means_first_signature :
+  forall dupfail doc nm cert,
+    tool_verify dupfail doc nm None cert =
+    if dupfail && has_dup (registered nm doc []) then false
+    else match first_sig doc with None => false | Some p => sig_verifies doc nm p cert end.
+Proof. exact tool_verify_no_node_id. Qed.
+Print Assumptions C16_no_node_id_means_first_signature.
+
+(* FULL STATEMENT (does not hold of the model, hence of the code with the tool
+   semantics of DESIGN.md 4.3):
+     forall dupfail now s doc nm cert m,
+       s_kind s <> Inline -> s_cert s = true -> root_signed doc = true ->
+       load_source now (signed_source s dupfail doc nm cert) = Ok m ->
+       own_signature_ok doc nm cert = true.
+   Witness: the attacker's EntitiesDescriptor (no ID) carries Extensions holding
+   the federation's validly signed document, THEN a top-level Signature whose
+   value is garbage. *)
+Definition N_ED : N := 1.   Definition N_EXT : N := 2.   Definition N_ENT : N := 3.
+Definition K_FED : N := 6.
+Definition genuine_unsigned : tree := El N_ED (Some (s2l "fed")) 10 [El N_ENT None 11 []].
+Definition genuine_signed : tree :=
+  El N_ED (Some (s2l "fed")) 10 [Sg [(s2l "#fed", genuine_unsigned)] K_FED true; El N_ENT None 11 []].
+Definition wrapped_doc : tree :=
+  El N_ED None 20 [El N_EXT None 21 [genuine_signed];
+                   Sg [(s2l "#fed", genuine_unsigned)] 0 false;
+                   El N_ENT None 22 []].
+(* the second arrangement: the genuine Signature MOVED to the attacker's root,
+   the genuine document parked without it *)
+Definition wrapped_doc_moved : tree :=
+  El N_ED None 20 [Sg [(s2l "#fed", genuine_unsigned)] K_FED true;
+                   El N_EXT None 21 [genuine_unsigned];
+                   El N_ENT None 22 []].
+Definition evil_source : source := remote_stub true [witness_entity].
+
+Theorem C16_signed_only_if_own_signature_verifies_refuted :
+  exists dupfail now s doc nm cert m,
+    s_kind s <> Inline /\ s_cert s = true /\ root_signed doc = true /\
+    load_source now (signed_source s dupfail doc nm cert) = Ok m /\ m <> [] /\
+    own_signature_ok doc nm cert = false /\
+    (* ... while the genuine document alone is fine, and the second arrangement is accepted as well *)
+    own_signature_ok genuine_signed nm cert = true /\
+    (exists m', load_source now (signed_source s dupfail wrapped_doc_moved nm cert) = Ok m' /\ m' <> []) /\
+    own_signature_ok wrapped_doc_moved nm cert = false.
 Proof.
-  intros now s m Hnf Hl Hk Hc Hd. apply load_source_ok in Hl as [_ [_ Ha]].
-  destruct (Ha Hk Hc Hd) as [_ [[|] Hb]]; [exact Hb|contradiction].
+  exists true, 0%Z, evil_source, wrapped_doc, N_ED, K_FED. eexists.
+  repeat split; try discriminate; try (vm_compute; reflexivity).
+  eexists. split; [vm_compute; reflexivity|discriminate].
 Qed.
-Print Assumptions C16_signed_only_if_verified_partial.
+Print Assumptions C16_signed_only_if_own_signature_verifies_refuted.
+
+(* ... and holds whenever the first ds:Signature in document order is a child
+   of the root that refers to the root *)
+Theorem C16_signed_only_if_own_signature_verifies_partial :
+  forall dupfail now s doc nm cert m,
+    first_sig_is_own doc nm = true ->
+    s_kind s <> Inline -> s_cert s = true -> root_signed doc = true ->
+    load_source now (signed_source s dupfail doc nm cert) = Ok m ->
+    own_signature_ok doc nm cert = true.
+Proof. intros dupfail now s doc nm cert m Hown Hk Hc Hs Hl. exact (own_signature_partial _ _ _ _ _ _ _ Hk Hc Hs Hown Hl). Qed.
+Print Assumptions C16_signed_only_if_own_signature_verifies_partial.
+
+(* that hypothesis is what the enveloped-signature pre-check of
+   sigver._check_signature (Model/Xmlsec.v precheck) establishes when it is
+   asked about the root element and the root's own ID *)
+Theorem C16_enveloped_precheck_gives_hypothesis :
+  forall nm v pl kids,
+    precheck (El nm (Some v) pl kids) nm (Some v) = true ->
+    first_sig_is_own (El nm (Some v) pl kids) nm = true.
+Proof. exact precheck_root_first_sig_is_own. Qed.
+Print Assumptions C16_enveloped_precheck_gives_hypothesis.
+
+(* ... hence: were parse_and_check_signature to make that pre-check on the root
+   (name nm, ID v) before calling the tool, (4b) would hold in full *)
+Theorem C16_own_signature_verifies_under_precheck :
+  forall dupfail now s nm v pl kids cert m,
+    precheck (El nm (Some v) pl kids) nm (Some v) = true ->
+    s_kind s <> Inline -> s_cert s = true -> root_signed (El nm (Some v) pl kids) = true ->
+    load_source now (signed_source s dupfail (El nm (Some v) pl kids) nm cert) = Ok m ->
+    own_signature_ok (El nm (Some v) pl kids) nm cert = true.
+Proof.
+  intros dupfail now s nm v pl kids cert m Hpre Hk Hc Hs Hl.
+  exact (own_signature_partial _ _ _ _ _ _ _ Hk Hc Hs (precheck_root_first_sig_is_own _ _ _ _ Hpre) Hl).
+Qed.
+Print Assumptions C16_own_signature_verifies_under_precheck.
+
+(* (4c) NOT the code this check expects: the loader with the follow-up
+   proposed_fix/C16-2-after-C01-1 (pre-check of the root before the tool is
+   called, Model/MdSig.v signed_source_prechecked) satisfies (4b) in full for
+   a root element of the registered name *)
+Theorem C16_prechecked_loader_full :
+  forall dupfail now s nm i pl kids cert m,
+    s_kind s <> Inline -> s_cert s = true -> root_signed (El nm i pl kids) = true ->
+    load_source now (signed_source_prechecked s dupfail (El nm i pl kids) nm cert) = Ok m ->
+    own_signature_ok (El nm i pl kids) nm cert = true.
+Proof. exact prechecked_loader_full. Qed.
+Print Assumptions C16_prechecked_loader_full.
 
 (* ---- (5) configuration round trip ------------------------------------------
    loading the descriptor generated from a configuration serves, for every role
@@ -285,7 +444,7 @@ Theorem C16_config_endpoints :
 Proof. intros. apply do_endpoints_exact. Qed.
 Print Assumptions C16_config_endpoints.
 
-(* ---- the hypotheses are satisfiable: a three-source federation -------------- *)
+(* ---- the hypotheses are satisfiable: a four-source federation --------------- *)
 Definition cert_a : str := s2l "QUFBQQ==".
 Definition cert_b : str := s2l "QkJCQg==".
 Definition ex_idp (loc : str) (keys : list keydesc) : role :=
@@ -307,7 +466,10 @@ Definition ex_federation : list source := [
     {| d_signed := true; d_body := Many None IvOk [ex_ent (s2l "A") (s2l "https://evil/sso") None []] |};
   (* 3: remote, signed, verified: A is served from here *)
   ex_src (s2l "u3") Remote true (Ok true)
-    {| d_signed := true; d_body := Many (Some 200%Z) IvOk [ex_ent (s2l "A") (s2l "https://a3/sso") None []] |}
+    {| d_signed := true; d_body := Many (Some 200%Z) IvOk [ex_ent (s2l "A") (s2l "https://a3/sso") None []] |};
+  (* 4: remote, signed, the backend answered False: contributes nothing either (C stays unknown) *)
+  ex_src (s2l "u4") Remote true (Ok false)
+    {| d_signed := true; d_body := Many None IvOk [ex_ent (s2l "C") (s2l "https://c4/sso") None []] |}
 ].
 Example C16_example :
   let st := load_all 100 [] ex_federation in
@@ -318,6 +480,11 @@ Example C16_example :
   store_service st (s2l "C") T_IDP S_SSO B_POST = Err UnknownSystemEntity /\
   store_certs st (s2l "B") (s2l "idpsso") U_SIGNING = Ok [cert_a] /\
   store_certs st (s2l "B") (s2l "any") U_ENCRYPTION = Ok [cert_b] /\
-  store_keys (load_all 102 [] ex_federation) = [s2l "A"].
-Proof. vm_compute. repeat split; reflexivity. Qed.
+  store_keys (load_all 102 [] ex_federation) = [s2l "A"] /\
+  load_outcomes 100 [] ex_federation = [None; Some (s2l "SignatureError"); None; Some SignatureError] /\
+  (* the partial theorem of (4b) is not vacuous: the genuine document has the shape and is accepted *)
+  first_sig_is_own genuine_signed N_ED = true /\
+  (exists m, load_source 0 (signed_source evil_source true genuine_signed N_ED K_FED) = Ok m) /\
+  precheck genuine_signed N_ED (Some (s2l "fed")) = true /\ precheck wrapped_doc N_ED None = false.
+Proof. vm_compute. repeat split; try reflexivity. eexists; reflexivity. Qed.
 Print Assumptions C16_example.
